@@ -289,6 +289,9 @@ func (p *Program) GenFunc(fc *FuncContract, prop string) (res *FuncResult) {
 			rn[lt.Name] = Val{T: vc.Define("plet_"+lt.Name, rsc.eval(lt.Expr))}
 		}
 		for _, w := range fc.Witness {
+			if _, bound := rn[w.Name]; bound {
+				continue // an earlier witness clause for this name was evaluable on this path
+			}
 			func() {
 				defer func() {
 					if r := recover(); r != nil {
@@ -297,7 +300,15 @@ func (p *Program) GenFunc(fc *FuncContract, prop string) (res *FuncResult) {
 						}
 						// the witness expression mentions names not bound on this return path: it stays arbitrary
 						// there (proving the clause for an arbitrary value is the stronger statement)
-						rn[w.Name] = Val{T: vc.Declare("wit_"+w.Name+"_arbitrary", vc.sortByName("Int"))}
+						last := true
+						for _, w2 := range fc.Witness {
+							if w2 != w && w2.Name == w.Name && w2.Line > w.Line {
+								last = false
+							}
+						}
+						if last {
+							rn[w.Name] = Val{T: vc.Declare("wit_"+w.Name+"_arbitrary", vc.sortByName(witnessSort(fc, w.Name)))}
+						}
 					}
 				}()
 				rn[w.Name] = Val{T: vc.Define("wit_"+w.Name, rsc.eval(w.Expr))}
@@ -504,6 +515,13 @@ func (p *Program) GenLemma(lm *Lemma, prop string) (res *FuncResult) {
 		vc.AddObl(&Obligation{Name: fmt.Sprintf("lemma:%s.%d", key, i+1), Kind: "lemma", Props: lm.Props, Hyp: TTrue, Goal: goal, Extra: extra, Note: "lemma: " + e.Text, Inputs: inputs, NoReplay: true})
 	}
 	return
+}
+
+func witnessSort(fc *FuncContract, name string) string {
+	if fc.Mode == "real" {
+		return "Real"
+	}
+	return "Int"
 }
 
 func specDirDefault() string {
